@@ -331,6 +331,9 @@ func cmdCheck(args []string) int {
 			if o.Cover || strings.Contains(o.Name, "@outside:") {
 				continue
 			}
+			if o.Kind == "inv-preserve" && items[i].VC != nil && items[i].VC.noReturnSeen {
+				continue // a back edge after os.Exit / log.Fatal is legitimately dead
+			}
 			t := *o
 			t.Name = o.Name + "@sanity"
 			t.Cond = not(o.Cond)
@@ -470,6 +473,26 @@ func cmdCheck(args []string) int {
 				continue
 			}
 			if _, ok := byName[lo.Name]; !ok {
+				// The contract clause behind this obligation speaks about "the last call to X" and the function, which
+				// still exists, no longer calls X at all: the call the obligation demands is gone.  That is a failure of
+				// the obligation, not a naming problem.
+				fkey := lo.Name
+				if i := strings.Index(fkey, "#"); i >= 0 {
+					fkey = fkey[:i]
+				}
+				gone := ""
+				for _, u := range unbound {
+					if strings.HasPrefix(u, fkey+":") && strings.Contains(u, "no call to ") {
+						gone = u
+					}
+				}
+				if gone != "" {
+					violations++
+					o := &Obligation{Name: lo.Name, Kind: "missing", Func: fkey}
+					path := writeReplayFile(replayDir, o, nil, "the obligation was discharged on the unchanged tree and can no longer be stated: "+gone)
+					fmt.Printf("VIOLATION property=%s replay=%s obligation=%s no-failing-input-found\n", id, path, lo.Name)
+					continue
+				}
 				fmt.Printf("UNDECIDED unbound %s (in the ledger, not generated from the current tree)\n", lo.Name)
 				undecided = append(undecided, lo.Name+" (unbound)")
 			}
@@ -592,6 +615,9 @@ func gitHead(repo string) string {
 func writeReplayFile(dir string, o *Obligation, it *OblResult, reason string) string {
 	os.MkdirAll(dir, 0o755)
 	path := filepath.Join(dir, truncate(sanitize(o.Name), 150)+".json")
+	if it == nil {
+		it = &OblResult{}
+	}
 	rec := map[string]interface{}{"obligation": o.Name, "kind": o.Kind, "position": o.Pos, "reason": reason,
 		"solver": it.Res.Solver, "solver_status": it.Res.Status, "solver_output": truncate(it.Res.Output, 4000),
 		"goal": truncate("(not "+implies(o.Guard, o.Cond)+")", 4000), "replayed": false}
